@@ -251,6 +251,21 @@ func (g *gen) invalidKeyStores() []rawInput {
 	add("bad-cert", "expired", cat(keyPEM(ec, "exp0"), certPEM(expired)))
 	add("bad-cert", "not-yet-valid", cat(keyPEM(ec, "fut0"), certPEM(future)))
 	add("bad-cert", "no-digital-signature-usage", cat(keyPEM(ec, "nods0"), certPEM(noDS)))
+	// stores that parse, hold the key and a chain that verifies - and are refused late, by the component that wants to sign with
+	// them: whatever the component had taken over before that point would be a partially applied reload
+	rk := mustKey(rs)
+	add("bad-cert", "no-digital-signature-usage-rsa", cat(keyPEM(rs, "nods1"), certPEM(makeCert(rk.Public(), rk, certOpt{CN: "nods1", KeyUsage: x509.KeyUsageKeyEncipherment | x509.KeyUsageDataEncipherment}))))
+	add("bad-cert", "key-agreement-usage-only", cat(certPEM(makeCert(k.Public(), k, certOpt{CN: "nods2", KeyUsage: x509.KeyUsageKeyAgreement})), keyPEM(ec, "nods2")))
+	add("bad-cert", "ca-certificate-without-digital-signature-usage", cat(keyPEM(ec, "nods3"), certPEM(makeCert(k.Public(), k, certOpt{CN: "nods3", IsCA: true, KeyUsage: x509.KeyUsageCRLSign}))))
+	add("bad-cert", "no-digital-signature-usage-then-a-usable-entry", cat(keyPEM(ec, "nods4"), certPEM(makeCert(k.Public(), k, certOpt{CN: "nods4", KeyUsage: x509.KeyUsageKeyEncipherment})),
+		keyPEM(rs, "nods5"), certPEM(selfSigned(rs, "nods5"))))
+	{
+		rootK, intK := mustKey("ec_secp384r1"), mustKey("ec_prime256v1b")
+		root := makeCert(rootK.Public(), rootK, certOpt{CN: "nods-root", IsCA: true})
+		inter := makeCert(intK.Public(), nil, certOpt{CN: "nods-int", IsCA: true, Issuer: root, IssuerKey: rootK})
+		leaf := makeCert(k.Public(), nil, certOpt{CN: "nods6", Issuer: inter, IssuerKey: intK, KeyUsage: x509.KeyUsageKeyEncipherment})
+		add("bad-cert", "chain-with-leaf-without-digital-signature-usage", cat(keyPEM(ec, "nods6"), certPEM(leaf), certPEM(inter), certPEM(root)))
+	}
 	// leaf whose issuer is missing / chain with foreign root
 	ca := mustKey("ec_secp384r1")
 	caCert := makeCert(ca.Public(), ca, certOpt{CN: "lonely-root", IsCA: true})
